@@ -523,6 +523,11 @@ def monitor(g, log, rec):
                 elif logged[(actor, step)] == trig_out[i]:
                     bad.append('event %d failed at %d and its exception was raised in actor %d (step %d) waiting '
                                'for it, yet the failure was escalated as unhandled' % (i, trig_time[i], actor, step))
+        for c_id, c in rec.cond.items():
+            if i in c['members'] and c['created'] < trig_time[i] and trig_time.get(c_id) == trig_time[i] \
+                    and trig_out.get(c_id) == trig_out[i]:
+                bad.append('event %d failed at %d and condition %d (waiting since %d) failed with it, yet the '
+                           "member's failure was escalated as unhandled" % (i, trig_time[i], c_id, c['created']))
     if res is not None:
         if res[0] == 10 and u[0] == 'event':
             if u[1] not in trig_out or res[1:] != trig_out[u[1]]:
